@@ -89,7 +89,19 @@ def run(tier, seed, replay=None):
                 groups[v].append(k)
             rep.violation("diag-options", {"problem": "fonts compiled from the same program differ between option sets that only select/suppress diagnostics or debug output",
                                            "groups": list(groups.values())})
+    # a write that fails part-way through the font (file-size limit) at many positions, also inside the last tables, after
+    # which the directory and head are still rewritten in place: exit 1, error 135, no font (model: outWrites = false)
+    size, sweep = procscn.write_fault_sweep(build, work, None if tier == "thorough" else None)
+    want = procscn.model(dict(procscn.base_scn(), outWrites=0))
+    for lim, rc, exists, e135, changed in sweep:
+        stats["write_fault_positions"] += 1
+        if rc != want["exit"] or exists or not e135 or changed:
+            rep.violation("write-fault-%d" % lim, {
+                "problem": "output of %d bytes, writes failing beyond byte %d: exit status %s (model %s), output font %s, error 135 %s, other files changed: %s"
+                           % (size, lim, rc, want["exit"], "left behind" if exists else "absent", "reported" if e135 else "NOT reported", changed),
+                "rerun": "python3 -c \"import resource,signal,subprocess; ...\"  (RLIMIT_FSIZE=%d, SIGXFSZ ignored) grcompiler -q p.gdl in.ttf out.ttf" % lim})
     rep.coverage.update({
+        "write_fault_positions": stats["write_fault_positions"],
         "programs": stats["scenarios"], "traces_validated_against_impl": stats["scenarios"],
         "disagreements_checked": len(rep.violations), "evaluations": stats["scenarios"], "distinct_nontrivial": len(distinct),
         "states": 2 ** 15, "transitions": stats["scenarios"],
